@@ -604,4 +604,37 @@ theorem scan_iff (s : State) (hi : Inv s) (k : Nat) : k ∈ scanKeys s ↔ absT 
       rw [List.mem_filter]
       exact ⟨mem_allEntries.mpr ⟨_, bucketHash_lt k, hmem⟩, h⟩
 
+/-- all stored entries have pairwise different keys (per bucket by replace-in-place, across
+buckets because an entry sits in the bucket its key hashes to). -/
+theorem allEntries_distinct {bk : Nat → Pages} (ht : TInv bk) : Distinct (allEntries bk) := by
+  unfold Distinct allEntries
+  rw [List.pairwise_flatMap]
+  refine ⟨fun b _ => ht.distinct b, ?_⟩
+  refine List.Pairwise.imp ?_ (List.pairwise_lt_range (n := nBuckets))
+  intro b1 b2 hlt x hx y hy heq
+  have h1 := ht.home b1 x hx
+  have h2 := ht.home b2 y hy
+  rw [heq] at h1
+  omega
+
+/-- `scan_keys` lists no key twice. -/
+theorem scan_nodup (s : State) (hi : Inv s) : (scanKeys s).Nodup := by
+  unfold scanKeys List.Nodup
+  rw [List.pairwise_map]
+  exact List.Pairwise.sublist List.filter_sublist (allEntries_distinct hi.t)
+
+/-- `entry_count` is the number of distinct keys whose latest mark is live (so it over-counts the
+resident keys by exactly the keys marked span-non-resident: the recorded finding). -/
+theorem scan_length_le_count (s : State) : (scanKeys s).length ≤ entryCount s := by
+  unfold scanKeys entryCount
+  rw [List.length_map]
+  have : (allEntries s.buckets).filter (fun e => isLive e.ty && e.ty != tyMarkNonResident) =
+      ((allEntries s.buckets).filter (fun e => isLive e.ty)).filter (fun e => e.ty != tyMarkNonResident) := by
+    rw [List.filter_filter]
+    congr 1
+    funext e
+    exact Bool.and_comm _ _
+  rw [this]
+  exact List.length_filter_le _ _
+
 end Cascette.Proofs.Residency
